@@ -1,8 +1,10 @@
 package deviants
 
 import (
+	"fmt"
 	"os"
 	"strings"
+	"sync/atomic"
 	"syscall"
 	"testing"
 
@@ -48,7 +50,7 @@ func TestConformance(t *testing.T) {
 			d = ""
 		}
 		options.TestFS = func(tb testing.TB) fstest.SetupFS {
-			fs, err := New(d)
+			fs, err := NewScoped(d, tb.Name())
 			if err != nil {
 				tb.Fatal(err)
 			}
@@ -58,6 +60,10 @@ func TestConformance(t *testing.T) {
 			return fs
 		}
 	}
+	t.Cleanup(func() {
+		// for the driver: whether a scoped deviant met its scenario at all, and whether the deviation took effect
+		os.Stdout.WriteString(fmt.Sprintf("\nSCOPE-ACTIVATIONS %d\nDEVIATION-FIRED %d\n", atomic.LoadInt64(&Activations), atomic.LoadInt64(&Fired)))
+	})
 	fstest.FS(t, options)
 	fstest.File(t, options)
 }
@@ -69,7 +75,7 @@ func TestCatalogue(t *testing.T) {
 	if os.Getenv("VERIF_DEVIANT_LIST") == "" {
 		t.Skip()
 	}
-	for _, id := range Catalogue {
+	for _, id := range append(append([]string{}, Catalogue...), Scoped...) {
 		os.Stdout.WriteString("DEVIANT " + id + "\n")
 	}
 }
